@@ -325,6 +325,10 @@ class Interp:
             if base is None:
                 raise Raised("AttributeError", e)
             raise Unsupported(f"method {m} of a {type(base).__name__}")
+        if isinstance(e.func, (ast.Call, ast.Subscript)):
+            f_ = self.ev(e.func, env)
+            if callable(f_):
+                return f_(*args, **kw)
         raise Unsupported(f"call {fn[:40]}")
 
     # -- statements -------------------------------------------------------------------------------
